@@ -146,6 +146,12 @@ where
     if case.log {
         let _ = install_log_config(&mut state);
     }
+    if case.stale_state {
+        // what an earlier run on the same state left behind; initialisation has to reset it
+        state.insert(Evaluations(137));
+        state.insert(Iterations(11));
+        bump(&mut data.lock().unwrap().counters, "fault:stale-state-from-an-earlier-run", 1);
+    }
     state.insert(ObserverSlot::new(Obs::<P>::new(case.clone(), data.clone())));
     let r = guarded(|| config.run(problem, &mut state));
     report.result = match r {
